@@ -461,6 +461,8 @@ def _random_node_(seed):
     try:
         w = dc.World(shape, bases, feats, modprops)
     except Exception as e:      # a node the generator is entitled to build cannot be created
+        if dc.refusable(shape):
+            return {'refused': True}    # frappy may refuse such a configuration as a whole (C10)
         return {'build_error': repr(e)[:300], 'shape': shape,
                 'constants': sorted({x['dt']['t'] for accs in shape.values() for x in accs.values()
                                      if x['kind'] == 'param' and x['const'] != NULL})}
@@ -750,6 +752,9 @@ def run(chk):
     n = 60 if quick else 1500
     hidden = [[] for _ in traces]
     for x in pool_map(_random_node, [chk.seed * 1000003 + i for i in range(n)]):
+        if 'refused' in x:
+            n -= 1
+            continue
         if 'build_error' in x:
             chk.violation({'module': 'Describe', 'clause': 'node.build', 'constants': x['constants'], 'world': 'generated'},
                           {'world': 'generated:random', 'error': x['build_error'], 'shape': x['shape']})
